@@ -289,6 +289,74 @@ func c19Big(j c19Job) (res c19Res) {
 			}
 		}
 		res.Sample = "oversize key (2^24 bytes) / value (2^28 bytes) via Set, Merge, Del and the Alloc* variants between two valid entries: exact error, neighbours intact"
+	case "burst":
+		// three batches pile up before one merger cycle (MaxPreMergerBatches=3, partial merges), the first one much
+		// larger than the others and filled in descending key order, at the top level and inside a child collection;
+		// DeferredSort / CachePersisted on and off must give exactly the dumps of the plain build at every stage
+		var ref []string
+		for ci, cfg := range []Config{
+			{Backing: "store", MinMergePct: 100, MaxPre: 3},
+			{Backing: "store", MinMergePct: 100, MaxPre: 3, DeferredSort: true},
+			{Backing: "store", MinMergePct: 100, MaxPre: 3, DeferredSort: true, CachePersisted: true},
+			{Backing: "store", MinMergePct: 100, MaxPre: 3, CachePersisted: true},
+			{Backing: "store", MinMergePct: 100, MaxPre: 3, DeferredSort: true, Concern: 2},
+		} {
+			first := &BatchSpec{Kids: map[string]*BatchSpec{"A": {}}}
+			var probes []string
+			for i := 8; i >= 0; i-- { // descending insertion order
+				k := fmt.Sprintf("k%d", i)
+				ck := fmt.Sprintf("c%d\x00\xff", i)
+				probes = append(probes, k, ck)
+				first.Ops = append(first.Ops, Op{Kind: 'S', Key: k, Val: "v" + k})
+				first.Kids["A"].Ops = append(first.Kids["A"].Ops, Op{Kind: 'S', Key: ck, Val: "w" + ck})
+			}
+			second := &BatchSpec{Ops: []Op{{Kind: 'S', Key: "zz", Val: "second"}}, Kids: kid("A", &BatchSpec{Ops: []Op{{Kind: 'S', Key: "d", Val: "2"}}})}
+			third := &BatchSpec{Ops: []Op{{Kind: 'S', Key: "zy", Val: "third"}}, Kids: kid("A", &BatchSpec{Ops: []Op{{Kind: 'S', Key: "e", Val: "3"}}})}
+			probes = append(probes, "zz", "zy", "d", "e", "")
+			label := fmt.Sprintf("burst of three batches (9 keys in descending order at the top level and in child A, then two small ones) before one merger cycle, %s", cfg)
+			w := NewWorld(cfg, []*BatchSpec{first, second, third})
+			w.probes = probes
+			var dumps []string
+			var viol *Violation
+			// no read before the first persistence round has completed: a read sorts deferred segments in place
+			for _, stage := range [][]string{{"B0", "B1", "B2", "M", "Pb", "Pe"}, {"R"}, {"B1", "M", "Pb", "Pe"}, {"R"}} {
+				for _, st := range stage {
+					if !w.Step(st) || w.infra != "" {
+						res.Infra = fmt.Sprintf("%s: step %s not possible: %s", label, st, w.infra)
+						w.Teardown()
+						return
+					}
+				}
+				res.Stages++
+				if p := w.threadPanicked(); p != "" {
+					viol = &Violation{Prop: "C19", Sig: "panic|burst|any", Msg: label + ": " + p}
+					break
+				}
+				if vs := append(w.viols, w.snapshotOracle("C19")...); len(vs) > 0 {
+					v := vs[0]
+					v.Prop = "C19"
+					v.Sig = strings.SplitN(v.Sig, "|", 2)[0] + "|burst|any"
+					v.Msg = fmt.Sprintf("%s, after %v: %s", label, stage, v.Msg)
+					viol = &v
+					break
+				}
+				ss, _ := w.coll.Snapshot()
+				dumps = append(dumps, DumpSnapshot(ss, probes).String())
+				ss.Close()
+			}
+			w.Teardown()
+			res.Runs++
+			if viol != nil {
+				res.Viols = append(res.Viols, *viol)
+				continue
+			}
+			if ci == 0 {
+				ref = dumps
+			} else if ref != nil && strings.Join(ref, "\n") != strings.Join(dumps, "\n") {
+				res.Viols = append(res.Viols, Violation{Prop: "C19", Sig: "variant-differs|burst|any", Msg: label + ": the per-stage dumps differ from those of the plain build"})
+			}
+		}
+		res.Sample = "burst: three batches before one merger cycle (first large and in descending key order, top level and child collection), plain / DeferredSort / CachePersisted / forced compaction, 4 stages each"
 	case "uneven":
 		// key lengths so uneven that the in-memory key index of the persisted segment is cut short (the index's data area
 		// is sized from the average key length): eight keys, one of them 40 bytes long at every position in turn
@@ -354,6 +422,7 @@ func checkC19(prop, tier string) int {
 	}
 	jobs = append(jobs, Job{Kind: "c19", Data: mustJSON(c19Job{Tier: tier, Big: "limits"})})
 	jobs = append(jobs, Job{Kind: "c19", Data: mustJSON(c19Job{Tier: tier, Big: "uneven"})})
+	jobs = append(jobs, Job{Kind: "c19", Data: mustJSON(c19Job{Tier: tier, Big: "burst"})})
 	if tier == "thorough" {
 		jobs = append(jobs, Job{Kind: "c19", Data: mustJSON(c19Job{Tier: tier, Big: "bigkey"})}, Job{Kind: "c19", Data: mustJSON(c19Job{Tier: tier, Big: "bigval"})})
 	}
@@ -367,6 +436,10 @@ func checkC19(prop, tier string) int {
 	var samples []any
 	for i, r := range results {
 		if r.Crashed || r.Err != "" {
+			if v := crashViolation(pool, "C19", jobs[i], r); v != nil {
+				viols = append(viols, *v)
+				continue
+			}
 			infra++
 			fmt.Fprintf(os.Stderr, "INFRA: c19 job %d: %s %s\n", i, r.Err, tail(r.Stderr, 600))
 			continue
@@ -400,7 +473,7 @@ func checkC19(prop, tier string) int {
 			"traces_validated_against_impl": tot.Runs,
 			"evaluations":                   tot.Runs,
 			"distinct_nontrivial":           len(sigma)*len(sigma) - 1,
-			"rule":                          "every (key, value) pair of the byte-string alphabet (empty, 0x00, 0xff, store magic look-alikes with plausible and absurd length fields, 4095/4096/4097-byte strings) as a single-entry batch and as the middle entry of a three-entry batch, built plain / Alloc* / mixed, under DeferredSort+CachePersisted off/on, through 8 fixed pipeline stages (memory, merger, persist, reopen, appended batch, reopen, full compaction, reopen) with a model comparison after each; oversize entries at exactly 2^24 / 2^28 bytes are rejected; eight keys of very uneven length with a key index that ends early; states = pipeline stages compared; distinct_nontrivial = distinct non-trivial (key,value) pairs",
+			"rule":                          "every (key, value) pair of the byte-string alphabet (empty, 0x00, 0xff, store magic look-alikes with plausible and absurd length fields, 4095/4096/4097-byte strings) as a single-entry batch and as the middle entry of a three-entry batch, built plain / Alloc* / mixed, under DeferredSort+CachePersisted off/on, through 8 fixed pipeline stages (memory, merger, persist, reopen, appended batch, reopen, full compaction, reopen) with a model comparison after each; oversize entries at exactly 2^24 / 2^28 bytes are rejected; eight keys of very uneven length with a key index that ends early; a burst of three batches before one merger cycle (first one large, descending insertion order, with a child collection) under DeferredSort / CachePersisted on and off; states = pipeline stages compared; distinct_nontrivial = distinct non-trivial (key,value) pairs",
 			"samples":                       samples,
 			"exhaustive":                    infra == 0,
 			"alphabet_size":                 len(sigma),
